@@ -32,6 +32,7 @@ STRUCTS = {
     "two_rules": {"R": ["a", "b"], "S": ["c", "d", "e"]},
     "nested_f6": {"Root": ["A", "Z", "B", "Sub"], "Sub": ["S1", "S2"]},
     "nested_3": {"Root": ["A", "Mid"], "Mid": ["M1", "Low"], "Low": ["L1", "L2"]},
+    "one_rule_5": {"R": ["a", "b", "c", "d", "e"]},
 }
 
 
@@ -39,9 +40,13 @@ STRUCTS = {
 FIELDS = {"two_rules": {"a": "S"}}
 
 
-def masks(struct):
-    """the subsets of productions that carry a declared weight (the others count as weight one)"""
+def masks(struct, every_subset=False):
+    """the subsets of productions that carry a declared weight (the others count as weight one);
+    every_subset: all non-empty subsets (thorough tier), named by their bit pattern"""
     alts = STRUCTS[struct]
+    if every_subset:
+        allp = [p for ps in alts.values() for p in ps]
+        return {"s" + format(b, "0%db" % len(allp)): [p for i, p in enumerate(allp) if b >> i & 1] for b in range(1, 2 ** len(allp))}
     rules = list(alts)
     allp = [p for ps in alts.values() for p in ps]
     out = {"all": allp, "first": allp[:1], "alternate": allp[::2]}
@@ -105,7 +110,7 @@ def smt_update_weights(cfg):
     import z3
 
     alts = STRUCTS[cfg["struct"]]
-    decl_names = masks(cfg["struct"])[cfg["mask"]]
+    decl_names = masks(cfg["struct"], cfg["mask"].startswith("s") and set(cfg["mask"][1:]) <= {"0", "1"})[cfg["mask"]]
     allp = [p for ps in alts.values() for p in ps]
     sym = {n: z3.Real("w_" + n) for n in decl_names}
     d = {n: sym.get(n, z3.RealVal(1)) for n in allp}
@@ -261,9 +266,9 @@ def obligations(tier: str):
     T = tier == "thorough"
     obs = []
     for st in STRUCTS:
-        if st in ("one_rule_4", "nested_3") and not T:
+        if st in ("one_rule_4", "one_rule_5", "nested_3") and not T:
             continue
-        for mk in masks(st):
+        for mk in masks(st, every_subset=T):
             obs.append(Ob("update_weights", {"struct": st, "mask": mk, "timeout_ms": 120000 if T else 30000}, name=f"engineB_update_weights_{st}_{mk}", kind="smt", timeout=900 if T else 150, twin=False, smoke=0))
     obs.append(Ob("repeat_extraction", {}, name="concrete_f6_repeated_extraction", timeout=60, smoke=1))
     obs.append(Ob("pt_choice", {"fixture": "f6", "D": 6 if T else 3}, name="pt_decider_choice_f6"))
